@@ -223,8 +223,12 @@ specialise(
 )
 
 
-def c18_cleaner(shape: int, a0: int, a1: int, b0: int, b1: int) -> bool:
+WRAPPED = ["", "org.javarosa.xpath.XPathUnhandledException: ", "org.javarosa.xform.parse.XFormParseException: ", "java.lang.NullPointerException: "]
+
+
+def c18_cleaner(shape: int, a0: int, a1: int, b0: int, b1: int, wi: int = 0) -> bool:
     """
+    vpre: 0 <= wi <= 3
     vpre: (97 <= a0 <= 122 or a0 == 95) and (97 <= a1 <= 122 or 48 <= a1 <= 57 or a1 == 95 or a1 == 45)
     vpre: (97 <= b0 <= 122 or b0 == 95) and (97 <= b1 <= 122 or 48 <= b1 <= 57 or b1 == 95 or b1 == 45)
     vpost: _ == True
@@ -245,6 +249,10 @@ def c18_cleaner(shape: int, a0: int, a1: int, b0: int, b1: int) -> bool:
     elif shape == 4:  # secondary instance item path untouched
         msg = "XPath /root/item/" + A + " and /data/" + A + "/" + B
         want = "XPath /root/item/" + A + " and ${" + B + "}"
+    elif shape == 6:  # a RuntimeException wrapping another exception: no Java class name survives
+        msg = "java.lang.RuntimeException: " + WRAPPED[wi] + A + " failed\nnext " + B
+        got = ErrorCleaner.odk_validate(msg)
+        return ("java.lang." not in got) and ("org.javarosa." not in got) and got.endswith(A + " failed\nnext " + B)
     else:  # jar missing: returned as is
         msg = "Error: Unable to access jarfile /home/" + A + "/" + B + ".jar"
         want = msg
@@ -259,12 +267,12 @@ specialise(
     "C18",
     "b.cleaner",
     c18_cleaner,
-    {"shape": [0, 1, 2, 3, 4, 5]},
+    {"shape": [0, 1, 2, 3, 4, 5, 6]},
     timeout=400,
     kernel=K[4:8],
     shims=(),
-    symbolic="two path segments of 2 symbolic characters over [a-z_][a-z0-9_-]",
-    bounds="stderr template fixed per instance (instance path, body path, duplicates + Java stack noise, exception prefixes, secondary-instance path, missing jar)",
+    symbolic="two path segments of 2 symbolic characters over [a-z_][a-z0-9_-]; for the wrapped-exception template the inner exception class chosen by a symbolic index (none, XPathUnhandledException, XFormParseException, NullPointerException)",
+    bounds="stderr template fixed per instance (instance path, body path, duplicates + Java stack noise, exception prefixes, secondary-instance path, missing jar, RuntimeException wrapping another exception)",
     weight=60,
 )
 
